@@ -168,8 +168,7 @@ def once(rc):
     targets += [(FB, q) for q in ("factor_product", "factor_divide", "factor_sum_product") if q in repo.module(FB).functions]
     _sh.value_keyed_factor_rule(rc, targets)
     # conversions never rebuild a graph from its edge list alone (isolated variables / cliques would vanish)
-    _sh.rebuilt_from_edges_rule(rc, (MN, FG, JT, CG, BN), only=lambda f: f.name != "copy",
-                                exempt=("MarkovNetwork.to_junction_tree: JunctionTree(nx.minimum_spanning_tree(complete_graph).edges())",))
+    _sh.rebuilt_from_edges_rule(rc, (MN, FG, JT, CG, BN), only=lambda f: f.name != "copy")
     # delegations
     for rel, q in ((BN, "BayesianNetwork.to_junction_tree"), (FG, "FactorGraph.to_junction_tree")):
         d = repo.func(rel, q)
